@@ -27,6 +27,12 @@ Proof.
 Qed.
 Lemma TrP_halt : forall f s, TrP P s -> TrP P (halt f s).
 Proof. intros f s Hs. unfold TrP, halt. cbn [s_tr]. constructor; [apply Pfatal|exact Hs]. Qed.
+Lemma TrP_push_dtd : forall c n s, P (EvPushDtd n) = true -> TrP P s -> TrP P (push_dtd c n s).
+Proof.
+  intros c n s Hp Hs. unfold push_dtd.
+  assert (H1 : TrP P (emit [EvPushDtd n] s)) by (apply TrP_emit; [repeat constructor; exact Hp|exact Hs]).
+  destruct (c_countDtd c); [|exact H1]. cbv zeta. destruct (over_limit c _); [apply TrP_halt|]; exact H1.
+Qed.
 Lemma TrP_incr : forall s, TrP P s -> TrP P (incr s).
 Proof. intros s Hs. exact Hs. Qed.
 Lemma TrP_add_ge : forall n g s, TrP P s -> TrP P (add_ge n g s).
@@ -54,15 +60,15 @@ Lemma content_cons_ref : forall d c rs fs nd ia ext cur st n r s,
     (if s_halt s then s else expand_ref (content d c rs fs nd) c rs fs nd ia ext cur st n s).
 Proof. reflexivity. Qed.
 
-Lemma dtd_att_O : forall nd ext cur st ps s, dtd_att O nd ext cur st ps s = if s_halt s then s else halt FFuel s.
+Lemma dtd_att_O : forall c nd ext cur st ps s, dtd_att O c nd ext cur st ps s = if s_halt s then s else halt FFuel s.
 Proof. reflexivity. Qed.
-Lemma dtd_att_nil : forall d nd ext cur st s, dtd_att (S d) nd ext cur st [] s = s.
+Lemma dtd_att_nil : forall d c nd ext cur st s, dtd_att (S d) c nd ext cur st [] s = s.
 Proof. reflexivity. Qed.
-Lemma dtd_att_txt : forall d nd ext cur st r s, dtd_att (S d) nd ext cur st (PTxt :: r) s = dtd_att (S d) nd ext cur st r s.
+Lemma dtd_att_txt : forall d c nd ext cur st r s, dtd_att (S d) c nd ext cur st (PTxt :: r) s = dtd_att (S d) c nd ext cur st r s.
 Proof. reflexivity. Qed.
-Lemma dtd_att_cons_ref : forall d nd ext cur st n r s,
-  dtd_att (S d) nd ext cur st (PRef n :: r) s =
-  dtd_att (S d) nd ext cur st r (if s_halt s then s else dtd_att_ref (dtd_att d nd) nd ext cur st n s).
+Lemma dtd_att_cons_ref : forall d c nd ext cur st n r s,
+  dtd_att (S d) c nd ext cur st (PRef n :: r) s =
+  dtd_att (S d) c nd ext cur st r (if s_halt s then s else dtd_att_ref (dtd_att d c nd) c nd ext cur st n s).
 Proof. reflexivity. Qed.
 
 Lemma dtd_items_O : forall c rs fs nd ext cur st l s,
@@ -73,7 +79,7 @@ Proof. reflexivity. Qed.
 Lemma dtd_items_cons : forall d c rs fs nd ext cur st it r s,
   dtd_items (S d) c rs fs nd ext cur st (it :: r) s =
   dtd_items (S d) c rs fs nd ext cur st r
-    (if s_halt s then s else dtd_item (dtd_items d c rs fs nd) (dtd_att d nd) c rs fs ext cur st it s).
+    (if s_halt s then s else dtd_item (dtd_items d c rs fs nd) (dtd_att d c nd) c rs fs ext cur st it s).
 Proof. reflexivity. Qed.
 
 Lemma schema_refs_O : forall c rs fs url tns l s,
@@ -164,16 +170,16 @@ Qed.
 
 Lemma dtd_att_ref_allowed : forall (rec : rec_att) nd ext cur st n,
   (forall ext cur st ps s, TrP P s -> TrP P (rec ext cur st ps s)) ->
-  forall s, TrP P s -> TrP P (dtd_att_ref rec nd ext cur st n s).
+  forall s, TrP P s -> TrP P (dtd_att_ref rec c nd ext cur st n s).
 Proof.
   intros rec nd ext cur st n IH s Hs. unfold dtd_att_ref.
   destruct (lookup n (s_ge s)) as [g|]; [|destruct nd; [apply TrP_halt|]; auto].
   destruct (g_def g); [|apply TrP_halt; auto].
   destruct (negb (push_ok n st)); [apply TrP_halt; auto|].
-  apply IH. apply TrP_emit; [repeat constructor|auto].
+  apply IH. apply TrP_push_dtd; auto.
 Qed.
 
-Lemma dtd_att_allowed : forall d nd ext cur st ps s, TrP P s -> TrP P (dtd_att d nd ext cur st ps s).
+Lemma dtd_att_allowed : forall d nd ext cur st ps s, TrP P s -> TrP P (dtd_att d c nd ext cur st ps s).
 Proof.
   induction d as [|d IHd]; intros nd ext cur st ps s Hs.
   - rewrite dtd_att_O. destruct (s_halt s); [exact Hs|apply TrP_halt; auto].
@@ -201,13 +207,13 @@ Proof.
   - destruct (lookup n (s_pe s)) as [p|]; [|exact Hs].
     destruct (p_def p) as [vv|pub sys].
     + destruct (negb (push_ok n st)); [apply TrP_halt; auto|].
-      apply IH. apply TrP_emit; [repeat constructor|auto].
+      apply IH. apply TrP_push_dtd; auto.
     + destruct (create_reader c rs fs KPE (p_base p) _ sys pub) as [ev r] eqn:E.
       pose proof (create_reader_allowed _ _ _ _ _ _ _ G E) as Hev.
       assert (H1 : TrP P (emit ev s)) by (apply TrP_emit; auto).
       destruct r as [id ct| |f]; [|apply TrP_halt; auto|apply TrP_halt; auto].
       destruct (negb (push_ok n st)); [apply TrP_halt; auto|].
-      assert (H2 : TrP P (emit [EvPushDtd n] (emit ev s))) by (apply TrP_emit; [repeat constructor|auto]).
+      assert (H2 : TrP P (push_dtd c n (emit ev s))) by (apply TrP_push_dtd; auto).
       destruct ct as [[items|ps|refs]|]; auto.
   - apply IHa. exact Hs.
 Qed.
@@ -419,4 +425,96 @@ Proof.
   - subst k. rewrite L. rewrite andb_false_r. apply andb_false_r.
   - destruct k; try (exfalso; apply K; reflexivity); rewrite H; cbn [andb]; apply andb_false_r.
   - subst k. rewrite H. cbn [andb]. apply andb_false_r.
+Qed.
+
+(* ---- useCachedGrammarInParse: the same gate holds on the pool-lookup path ------------------------------- *)
+Lemma run_c_none : forall c rs fs x, run_c c rs fs None x = run c rs fs x.
+Proof. reflexivity. Qed.
+
+Lemma set_tables_TrP : forall P tb s, TrP P s -> TrP P (set_tables tb s).
+Proof. intros P tb s H. exact H. Qed.
+
+Lemma dtd_source_allowed : forall c v rs base sys pub ev src,
+  dtd_source c rs base sys pub = (ev, src) ->
+  Forall (fun e => allowed c v e = true) ev /\ (forall dd, src = SsDef dd -> c_disableDefault c = false).
+Proof.
+  intros c v rs base sys pub ev src E. unfold dtd_source in E.
+  assert (R1 : Forall (fun e => allowed c v e = true)
+                 (match rs with Some _ => [EvResolve KDtd sys base pub] | None => [] end)).
+  { destruct rs; repeat constructor. }
+  destruct (match rs with Some f => f sys base pub | None => None end) as [[id ct]|].
+  - inversion E; subst. split; [|intros dd H; discriminate]. apply Forall_app. split; [exact R1|repeat constructor].
+  - destruct (c_disableDefault c) eqn:D.
+    + inversion E; subst. split; [exact R1|intros dd H; discriminate].
+    + destruct (default_source (c_stdUri c) base sys); inversion E; subst;
+        (split; [exact R1|intros; reflexivity || discriminate]).
+Qed.
+
+Lemma scan_doctype_c_allowed : forall d c rs fs nd docsys dt uc s,
+  TrP (allowed c (validating c dt)) s -> TrP (allowed c (validating c dt)) (scan_doctype_c d c rs fs nd docsys dt uc s).
+Proof.
+  intros d c rs fs nd docsys dt uc s Hs. unfold scan_doctype_c.
+  assert (Pf : forall f, allowed c (validating c dt) (EvFatal f) = true) by reflexivity.
+  destruct uc as [pl|]; [|apply scan_doctype_allowed; exact Hs].
+  destruct (dt_ext dt) as [[pub sys]|] eqn:DE; [|destruct (dt_int dt); apply scan_doctype_allowed; exact Hs].
+  destruct (dt_int dt) eqn:DI.
+  - destruct (dtd_scanner c) eqn:DS; [|exact Hs]. cbn [negb].
+    destruct (dtd_source c rs docsys sys pub) as [ev src] eqn:E.
+    destruct (dtd_source_allowed c (validating c dt) _ _ _ _ _ _ E) as [Hev HD].
+    assert (H1 : TrP (allowed c (validating c dt)) (emit ev s)) by (apply TrP_emit; auto).
+    destruct src; try (apply scan_doctype_allowed; exact H1); try (apply TrP_halt; auto);
+      (destruct (lookup _ pl); [apply TrP_halt; auto|apply scan_doctype_allowed; exact H1]).
+  - destruct (dtd_scanner c) eqn:DS; [|exact Hs]. cbn [negb].
+    destruct (dtd_source c rs docsys sys pub) as [ev src] eqn:E.
+    destruct (dtd_source_allowed c (validating c dt) _ _ _ _ _ _ E) as [Hev HD].
+    assert (H1 : TrP (allowed c (validating c dt)) (emit ev s)) by (apply TrP_emit; auto).
+    assert (K : TrP (allowed c (validating c dt))
+      (match lookup (ssrc_id src) pl with
+       | Some tb => set_tables tb (emit ev s)
+       | None =>
+         if c_loadDTD c || validating c dt then
+           let '(ev2, r) := open_resolved fs src in
+           let s2 := emit ev2 (emit ev s) in
+           match r with
+           | CrThrow f => halt f s2
+           | CrNone => halt FOpenFailed s2
+           | CrOk id ct =>
+             match ct with
+             | Some (CDtd items) => dtd_items d c rs fs nd id (Some [68; 84; 68]) [] items s2
+             | _ => s2
+             end
+           end
+         else emit ev s
+       end)).
+    { destruct (lookup (ssrc_id src) pl); [exact H1|].
+      destruct (c_loadDTD c || validating c dt) eqn:G; [|exact H1].
+      destruct (open_resolved fs src) as [ev2 r] eqn:E2. cbv zeta.
+      assert (Hev2 : Forall (fun e => allowed c (validating c dt) e = true) ev2).
+      { unfold open_resolved in E2. destruct src as [| |id ct|dd]; inversion E2; subst; try constructor; [|constructor].
+        unfold allowed, gate. rewrite (HD dd eq_refl), DS, G. reflexivity. }
+      assert (H2 : TrP (allowed c (validating c dt)) (emit ev2 (emit ev s))) by (apply TrP_emit; auto).
+      destruct r as [id ct| |f]; [|apply TrP_halt; auto|apply TrP_halt; auto].
+      destruct ct as [[items|ps|refs]|]; auto. apply dtd_items_allowed; assumption. }
+    destruct src; [apply scan_doctype_allowed; exact H1|apply TrP_halt; auto|exact K|exact K].
+Qed.
+
+Lemma run_fuel_c_allowed : forall d c rs fs uc x, TrP (allowed c (vflag c x)) (run_fuel_c d c rs fs uc x).
+Proof.
+  intros d c rs fs uc x. unfold run_fuel_c.
+  assert (Pf : forall f, allowed c (vflag c x) (EvFatal f) = true) by reflexivity.
+  assert (H1 : TrP (allowed c (vflag c x))
+     (match d_doctype x with Some dt => scan_doctype_c d c rs fs (no_dtd x) (d_sys x) dt uc st0 | None => st0 end)).
+  { unfold vflag. destruct (d_doctype x) as [dt|]; [|constructor]. apply scan_doctype_c_allowed. constructor. }
+  apply content_allowed.
+  destruct (schema_scanner c) eqn:SS.
+  - apply scan_hints_allowed; [exact SS|]. apply scan_atts_allowed. exact H1.
+  - apply scan_atts_allowed. exact H1.
+Qed.
+
+Lemma no_fetch_cached : forall c rs fs uc x k t id,
+  In (EvOpen k t id) (trace (run_c c rs fs uc x)) -> permitted c (has_subset x) k = true.
+Proof.
+  intros c rs fs uc x k t id H. apply gate_permitted.
+  pose proof (run_fuel_c_allowed default_fuel c rs fs uc x) as A. unfold TrP in A.
+  unfold trace, run_c in H. apply in_rev in H. rewrite Forall_forall in A. exact (A _ H).
 Qed.
